@@ -17,7 +17,7 @@ Require Import Grits.Base Grits.Forms Grits.Expand Grits.TcTop Grits.Runtime.
 Require Import Grits.RuntimeFootprint Grits.proofs.RuntimeFacts Grits.proofs.Diamond Grits.proofs.Determinism Grits.proofs.AsyncSync Grits.proofs.RuntimeCheckFacts Grits.proofs.ForkJoin Grits.proofs.DeterminismExamples.
 Require Import Grits.Tc Grits.spec.RtTyping Grits.spec.Topo Grits.proofs.RtSafety Grits.proofs.RtInit Grits.proofs.RtTheorems Grits.proofs.DeterminismTyped Grits.proofs.TopoLin Grits.proofs.TopoStep Grits.proofs.TopoReach Grits.proofs.InitLinear.
 Require Import Grits.spec.SynOk Grits.proofs.RtTcSyn Grits.proofs.RtTheoremsTc Grits.proofs.DeterminismTc.
-Require Import Grits.proofs.LinBridge Grits.proofs.InitAccept Grits.proofs.DeterminismAccept Grits.proofs.TopoStepExt.
+Require Import Grits.proofs.LinBridge Grits.proofs.InitAccept Grits.proofs.DeterminismAccept Grits.proofs.TopoStepExt Grits.proofs.TopoFinish.
 
 Theorem C03_step_is_move : forall md D F c ch, step md D F c ch = sres_of c (move_of md D F c ch).
 Proof. exact step_move. Qed.
@@ -513,6 +513,24 @@ Theorem C03_topo_send_gc : forall D c p pp k m st,
   Topo (del_proc (put_msg c k st (Some m)) p) /\ LinCfg (del_proc (put_msg c k st (Some m)) p).
 Proof. exact topo_send_gc. Qed.
 
+(* the receipt of a GC request (the process ends, one droppable forward per free name of its body) and a
+   droppable positive forward receiving a message (the message is dropped, one droppable forward per
+   channel it carries): instances of TopoFinish.topo_finish_fwds *)
+Theorem C03_topo_gc_recv : forall D F teq, teq_laws D teq -> forall Δ c p pp k st m e,
+  cfg_typed D F teq Δ c -> Topo c -> ns_ok c -> procs c !! p = Some pp ->
+  recv_form (pr_body0 pp) -> cids_of (pr_provs pp) = [k] ->
+  chans c !! k = Some st -> ch_buf st = Some m -> ch_closed st = false -> m_rule m = RGC ->
+  on_message p pp m = EOk e -> Topo (apply_effect (put_msg c k st None) p pp e).
+Proof. exact topo_gc_recv. Qed.
+
+Theorem C03_topo_dropfwd_recv : forall D F teq, teq_laws D teq -> forall Δ c p pp to from k st m e,
+  cfg_typed D F teq Δ c -> Topo c -> LinCfg c -> ns_ok c -> procs c !! p = Some pp ->
+  pr_body0 pp = FFwd to from true -> chan from = Some k ->
+  chans c !! k = Some st -> ch_buf st = Some m -> ch_closed st = false -> is_pos_rule (m_rule m) = true ->
+  (forall j o2, j ∈ cids_of (pr_provs pp) -> obj_in c o2 -> j ∉ refs o2) ->
+  on_message p pp m = EOk e -> Topo (apply_effect (put_msg c k st None) p pp e).
+Proof. exact topo_dropfwd_recv. Qed.
+
 Print Assumptions C03_init_linear_accept.
 Print Assumptions C03_topo_runs_core_accept.
 Print Assumptions C03_determinism_core_accept.
@@ -524,3 +542,5 @@ Print Assumptions C03_topo_drop_step.
 Print Assumptions C03_topo_split_step.
 Print Assumptions C03_drop_child_unref.
 Print Assumptions C03_topo_send_gc.
+Print Assumptions C03_topo_gc_recv.
+Print Assumptions C03_topo_dropfwd_recv.
